@@ -47,6 +47,8 @@ type LValue struct {
 	Base   string
 	Idx    string
 	ElemTy types.Type
+	SliceT string // slice term and index for accessor-style reads (lvElem through a slice)
+	SliceI string
 	RootTy types.Type // type of the root storage location
 	Path   []pathStep
 	Ty     types.Type // type of the addressed value
